@@ -5,6 +5,7 @@ namespace Tern
 structure PR where
   low : U16
   high : U16
+  deriving DecidableEq
 
 def PR.isWildcard (pr : PR) : Prop := (pr.low = 0#16 ∧ pr.high = 0xFFFF#16) ∨ (pr.low = 0#16 ∧ pr.high = 0#16)
 def PR.isExact (pr : PR) : Prop := pr.low = pr.high ∧ pr.high ≠ 0#16
